@@ -36,7 +36,8 @@ TRUSTED = [
     "CPython: a single dict/set/list method call and a single attribute load/store are atomic (the scheduler pre-empts "
     "between bytecodes, never inside one); threading.Lock/RLock/Thread are replaced by scheduler-aware equivalents",
     "block model: a `with lock:` section is one atomic block (justified by the generated lock map, validated by the "
-    "bytecode-level exploration); records are abstract values, a record is expired iff its value is odd",
+    "bytecode-level exploration); records are codes 2*payload+expiredBit: queries return the payload, the bit stands for "
+    "timestamp/time validity, an update replaces the payload and keeps the bit",
     "harness/gen_locks.py, harness/dsched.py, the reference map and the linearisability search in this file",
 ]
 ASSUMPTIONS = [
@@ -147,7 +148,7 @@ class Ref:
             return (i,)
         if k == "upd":
             if op[2] in self.store:
-                self.store[op[2]] = op[3]
+                self.store[op[2]] = 2 * op[3] + self.store[op[2]] % 2       # payload replaced, validity kept
                 return (0,)
             return (1,)
         if k == "del":
@@ -158,7 +159,7 @@ class Ref:
         if k == "qry":
             if op[2] not in self.cons:
                 return (0, None)
-            return (1, tuple(self.store.values()))
+            return (1, tuple(v // 2 for v in self.store.values()))
         if k == "sub":
             if op[2] not in self.cons:
                 return (0,)
@@ -181,7 +182,7 @@ class Ref:
                 if s // 100 not in self.cons:
                     drop.append(s)
                     continue
-                rows = tuple(self.store.values())
+                rows = tuple(v // 2 for v in self.store.values())
                 if rows:
                     calls.append((s, rows))
             self.subs = [s for s in self.subs if s not in drop]
@@ -232,7 +233,9 @@ def linearizable(history, final_key, fixed, setup, split_gates=False):
     """history: list of (op, response, inv_index, ret_index).  Wing & Gong search with memoisation.
     A maintenance pass (`gc`) is not required to be atomic: it is explained as a series of deletions of objects that
     are expired at the moment they are deleted, each taking effect somewhere between the pass's invocation and its
-    return (an expired object may disappear at any instant); every other operation takes effect atomically."""
+    return (an expired object may disappear at any instant).  An attendance pass is a loop over a copy of the
+    subscription list: each subscription is served (registration check, query, callback) at its own instant.  Every
+    other operation takes effect atomically."""
     n = len(history)
     ref0 = Ref()
     for op in setup:
@@ -241,45 +244,68 @@ def linearizable(history, final_key, fixed, setup, split_gates=False):
     is_gc = [history[i][0][0] == "gc" for i in range(n)]
     seen = set()
 
-    def go(done, opened, ref, gated=frozenset()):
+    is_att = [history[i][0][0] == "attend" for i in range(n)]
+
+    def go(done, opened, ref, gated=frozenset(), att=frozenset()):
         if len(done) == n:
             return ref.key() == final_key
-        k = (done, opened, ref.key(), gated)
+        k = (done, opened, ref.key(), gated, att)
         if k in seen:
             return False
         seen.add(k)
+        for a in att:                          # a running attendance pass: one subscription at a time
+            i, remaining, calls, drop = a
+            if remaining:
+                sid = remaining[0]
+                if sid // 100 not in ref.cons:
+                    a2 = (i, remaining[1:], calls, drop + (sid,))
+                else:
+                    rows = tuple(v // 2 for v in ref.store.values())
+                    a2 = (i, remaining[1:], calls + (((sid, rows),) if rows else ()), drop)
+                if go(done, opened, ref, gated, (att - {a}) | {a2}):
+                    return True
+            elif calls == history[i][1]:
+                r2 = ref.copy()
+                r2.subs = [x for x in r2.subs if x not in drop]
+                if go(done | {i}, opened, r2, gated, att - {a}):
+                    return True
         for g in opened:                       # a step of a running maintenance pass, or its end
-            if go(done | {g}, opened - {g}, ref, gated):
+            if go(done | {g}, opened - {g}, ref, gated, att):
                 return True
             for i, v in list(ref.store.items()):
                 if v % 2 == 1:
                     r2 = ref.copy()
                     del r2.store[i]
-                    if go(done, opened, r2, gated):
+                    if go(done, opened, r2, gated, att):
                         return True
         for i in gated:                        # second half of a gated operation (split_gates only)
             op, resp = history[i][0], history[i][1]
             r2 = ref.copy()
             if apply_action(r2, op, gate_observed(op, resp), fixed) == resp:
-                if go(done | {i}, opened, r2, gated - {i}):
+                if go(done | {i}, opened, r2, gated - {i}, att):
                     return True
+        running = {a[0] for a in att}
         for i in range(n):
-            if i in done or i in opened or i in gated or any(j not in done for j in before[i]):
+            if i in done or i in opened or i in gated or i in running or any(j not in done for j in before[i]):
                 continue
             if is_gc[i]:
-                if go(done, opened | {i}, ref, gated):
+                if go(done, opened | {i}, ref, gated, att):
+                    return True
+                continue
+            if is_att[i] and fixed.get("attend_checks_first"):
+                if go(done, opened, ref, gated, att | {(i, tuple(ref.subs), (), ())}):
                     return True
                 continue
             op, resp = history[i][0], history[i][1]
             if split_gates and op[0] in GATED:
                 reg = ref.prov if GATED[op[0]] == "prov" else ref.cons
                 if (op[2] in reg) == gate_observed(op, resp):
-                    if go(done, opened, ref, gated | {i}):
+                    if go(done, opened, ref, gated | {i}, att):
                         return True
                 continue
             r2 = ref.copy()
             if r2.apply(op, fixed) == resp:
-                if go(done | {i}, opened, r2, gated):
+                if go(done | {i}, opened, r2, gated, att):
                     return True
         return False
     return go(frozenset(), frozenset(), ref0)
@@ -288,14 +314,22 @@ def linearizable(history, final_key, fixed, setup, split_gates=False):
 # ------------------------------------------------------------------------------------------------ real runs
 
 
-def mk_add(aid, v, now_its):
-    ts = K.TimestampIts(now_its - (100000 if v % 2 else 0))
+def mk_add(aid, code, now_its):
+    """object values in scenarios are codes 2*payload + expiredBit (the bit stands for timestamp / time validity)"""
+    exp = code % 2
+    ts = K.TimestampIts(now_its - (100000 if exp else 0))
     loc = K.Location.initializer(latitude=515000000, longitude=21000000)       # outside the area of maintenance
-    return K.AddDataProviderReq(aid, ts, loc, {"cam": {"v": v}}, K.TimeValidity(1 if v % 2 else 1000))
+    return K.AddDataProviderReq(aid, ts, loc, {"cam": {"v": code // 2}}, K.TimeValidity(1 if exp else 1000))
 
 
 def val(container):
     return container["dataObject"]["cam"]["v"]
+
+
+def code_of(container):
+    if "timeValidity" in container:
+        return 2 * val(container) + (1 if container["timeValidity"] == 1 else 0)
+    return val(container)                    # rows written through the bare DictionaryDataBase API
 
 
 class Run:
@@ -493,7 +527,7 @@ class Run:
 
     # -- observation
     def final_key(self):
-        store = tuple((i, val(d)) for i, d in self.db.database.items())
+        store = tuple((i, code_of(d)) for i, d in self.db.database.items())
         back = {v: k for k, v in self.sub_ids.items()}
         subs = tuple(back.get(hash(si.subscription_request), -1) for si in self.svc.subscriptions)
         prov = frozenset(AID_BACK.get(a, a) for a in self.svc.data_provider_its_aid)
@@ -525,7 +559,7 @@ class Run:
         aids = sorted({op[2] if op[0] not in ("regP", "regC") else op[1] for op in allops
                        if op[0] in ("regP", "regC", "deregP", "deregC", "add", "qry", "sub", "unsub")})
         errs = sum(1 for t in self.s.threads if t.exc is not None)
-        return (f"R={rstr}_Q={qstr}_K={kstr}_D={','.join(f'{i}.{v}' for i, v in store)}"
+        return (f"R={rstr}_Q={qstr}_K={kstr}_D={','.join(f'{i}.{v // 2}' for i, v in store)}"
                 f"_P={','.join(str(a) for a in aids if a in prov)}_C={','.join(str(a) for a in aids if a in cons)}"
                 f"_S={','.join(map(str, subs))}_E={errs}")
 
